@@ -76,22 +76,30 @@ def _reader_summary(prog, nname):
     rb = prog.body(nname)
     if rb is None:
         return None
-    bufs = [e for s_, e in q.var_def_exprs(rb, "buffer")]
-    n = None
-    for e in bufs:
+    oks = q.result_blocks(rb)["Ok"]
+    if len(oks) != 1:
+        return None
+    return _read_shape(rb, dict(oks[0][1][3])["0"])
+
+
+def _read_shape(body, pay):
+    """(bytes, endianness) of a value decoded as T::from_(be|le)_bytes(buf) / buf[0] where buf is a local [0u8; n] filled by read_exact — whatever buf is called"""
+    pay = mir.strip(q.novers(pay))
+    while pay[0] == "cast":
+        pay = mir.strip(pay[1])
+    arg, en = None, None
+    if pay[0] == "call" and pay[1].split("::")[-1] in ("from_be_bytes", "from_le_bytes") and len(pay[2]) == 1:
+        arg, en = mir.strip(pay[2][0]), ("be" if pay[1].endswith("from_be_bytes") else "le")
+    elif pay[0] == "index" and q.const_val(pay[2]) == 0:
+        arg, en = mir.strip(pay[1]), "be"
+    elif pay[0] == "elem" or (pay[0] == "field" and pay[2] == "0"):
+        return None
+    if arg is None or arg[0] != "var":
+        return None
+    for s_, e in q.var_def_exprs(body, arg[1]):
         if e[0] == "repeat":
             n = int(e[2])
-    oks = q.result_blocks(rb)["Ok"]
-    if n is None or len(oks) != 1:
-        return None
-    pay = dict(oks[0][1][3])["0"]
-    s = sig(q.novers(pay))
-    if "from_be_bytes(buffer)" in s:
-        return (n, "be")
-    if "from_le_bytes(buffer)" in s:
-        return (n, "le")
-    if s == "buffer[0]" and n == 1:
-        return (1, "be")
+            return (n, en) if not (pay[0] == "index" and n != 1) else None
     return None
 
 
@@ -141,7 +149,11 @@ def t1_constants(ctx):
     r.check(not dup, "distinct", "%d constants, all distinct" % len(consts), "colliding opcode constants: %s" % dup)
 
 
+READERS = set()
+
+
 def t2_t3_tables(ctx):
+    READERS.clear()
     r = ctx.rule("T2", "per variant: encode's leading byte = the byte whose decode arm builds that variant; every variant has an encode arm and a decode arm")
     r3 = ctx.rule("T3", "per variant: operand widths/endianness written by encode = those read by decode, in field order")
     prog = ctx.prog
@@ -197,6 +209,10 @@ def t2_t3_tables(ctx):
         sites = []
         for fname, callee, site, fe in order:
             summ = _reader_summary(prog, callee) if callee else None
+            if summ is None:
+                summ = _read_shape(db, fe)          # the read is spelled out in decode itself (reader inlined / written in place)
+            if callee and prog.body(callee) is not None:
+                READERS.add(callee)
             rdesc.append((fname, summ[0] if summ else "?", summ[1] if summ else "?"))
             sites.append(site)
         # field order of reads = order of sites by dominance
@@ -213,7 +229,7 @@ def t2_t3_tables(ctx):
     for v in byte_of:
         r.check(v in variants, "decode-builds-known/" + v, "known variant", "decode builds unknown variant %s" % v)
     # decode readers
-    for nm in ("melvm::opcode::OpCode::decode::{closure#0}", "melvm::opcode::OpCode::decode::{closure#1}", "melvm::opcode::read_byte"):
+    for nm in sorted(READERS | {"melvm::opcode::read_byte"}):          # the readers the decode arms actually use
         sm = _reader_summary(prog, nm)
         r3.check(sm is not None, "reader/" + nm.split("::")[-1], "reader %s reads %s" % (nm.split("::")[-1], sm), "reader %s not understood" % nm)
 
@@ -261,8 +277,18 @@ def t4_literals(ctx):
     want = ["array(OPCODE_PUSHIC)", "array(SubWithOverflow(32, (%s as u8)).0)" % LZ, "std::array::<impl std::ops::Index<I> for [T; N]>::index(%s, RangeFrom::RangeFrom{start: %s})" % (BR, LZ)]
     if len(ws) == 3 and ws[1] == "array((SubWithOverflow(32, %s).0 as u8))" % LZ:
         ws[1] = want[1]          # (32 − lz) as u8  ≡  32 − (lz as u8): lz ≤ 32
-    r.check(ws == want or (len(ws) == 3 and ws[:2] == want[:2] and ws[2].startswith("std::array::<impl std::ops::Index<I> for [T; N]>::index(%s, " % BR) and LZ in ws[2]), "PushIC/encode",
-            "opcode, 32 − leading zero bytes, the remaining bytes", "PushIC encode writes %s" % ws)
+    exact = ws == want or (len(ws) == 3 and ws[:2] == want[:2] and ws[2].startswith("std::array::<impl std::ops::Index<I> for [T; N]>::index(%s, " % BR) and LZ in ws[2])
+    if not exact and len(ws) == 3 and ws[0] == want[0]:
+        # another way of counting the leading zero bytes: accepted when the *same* count Z gives the length byte 32 − Z and the start of the slice [Z..]
+        import re as _re
+        m3 = _re.fullmatch(_re.escape("std::array::<impl std::ops::Index<I> for [T; N]>::index(%s, RangeFrom::RangeFrom{start: " % BR) + r"(.*)\}\)", ws[2])
+        z = m3.group(1) if m3 else None
+        m2 = z is not None and ws[1] in ("array(SubWithOverflow(32, (%s as u8)).0)" % z, "array((SubWithOverflow(32, %s).0 as u8))" % z)
+        if m2 and BR in z:
+            r.undecided("PushIC/encode", "PushIC is written as opcode, 32 − Z, bytes[Z..] with Z = %s: that Z counts the leading zero bytes is not decided for this spelling" % z[:120])
+            exact = None
+    if exact is not None:
+        r.check(exact, "PushIC/encode", "opcode, 32 − leading zero bytes, the remaining bytes", "PushIC encode writes %s" % ws)
     d = [v for k, v in dec.items() if any(dict(x[1][3])["0"][2] == "PushIC" for x in v["built"])]
     r.check(bool(d), "PushIC/decode-arm", "decode arm present", "no decode arm for PushIC")
     if d:
